@@ -357,6 +357,28 @@ func c07Random(c *Case) {
 	if c.Index%4 == 0 && !c.scalarCheckMany(e, []*xdoc.Node{ctx, d.Nodes[g.Intn(len(d.Nodes))], d.Nodes[g.Intn(len(d.Nodes))], ctx}) {
 		return // (one compiled expression at several context nodes)
 	}
+	if c.Index%4 == 1 {
+		// the comparison as the predicate of a step with many candidates: one instance of it, evaluated per candidate
+		var pred xref.Expr = e
+		if v, oof := xref.SafeEval(e, xref.NewCtx(ctx)); oof == "" {
+			if _, isBool := v.(bool); !isBool {
+				pred = xref.Call{Name: "boolean", Args: []xref.Expr{e}}
+			}
+		}
+		pe := xref.Path{Abs: true, Steps: []*xref.Step{xgen.DSlash(), {Axis: "child", Abbrev: "child", Test: xref.Test{Kind: g.Pick("*", "node")}, Preds: []xref.Expr{pred}}}}
+		if !c.expensive(pe, d) {
+			if wantNS, okNS, _ := refNodeSet(pe, xref.NewCtx(d.Root)); okNS {
+				pce := c.compile(xref.Render(pe), func() map[string]interface{} { return docDetail(d, d.Root) })
+				if pce == nil {
+					return
+				}
+				if _, good := c.checkSelectSet(pce, xref.Render(pe), d.Root, wantNS); !good {
+					return
+				}
+				c.Count("comparison-per-candidate")
+			}
+		}
+	}
 	c.recordShapeOf(e)
 	nt := false
 	xref.Walk(e, func(x xref.Expr) {
